@@ -207,7 +207,7 @@ theorem stepClient_cases {P : G → Prop} (g : G) (c : Client) (f : Fault)
       P (G.setClient { g with dealt := g.dealt + 1 } { c with pc := .createCommit (g.dealt + 1) }))
     (hStartUpdate : ∀ key val exp, c.pc = .start → c.kind = .update key val exp →
       P (if exp == 0 then G.setClient { g with dealt := g.dealt + 1 } { c with pc := .createCommit (g.dealt + 1) }
-         else if g.dealt + 1 < exp then
+         else if g.dealt + 1 ≤ exp then
            (G.notify { g with dealt := g.dealt + 1 } (mkW (g.dealt + 1) exp false .put key val)).finish c (.error .drift) (g.dealt + 1)
          else G.setClient { g with dealt := g.dealt + 1 } { c with pc := .updateCommit (g.dealt + 1) }))
     (hCreateCommit : ∀ rev key val r st, c.pc = .createCommit rev →
@@ -250,7 +250,7 @@ theorem stepClient_cases {P : G → Prop} (g : G) (c : Client) (f : Fault)
       P ((G.notify { g with dealt := g.dealt + 1 } (mkW (g.dealt + 1) 0 false .delete key [])).finish c
           (.notFound (g.dealt + 1)) (g.dealt + 1)))
     (hDeleteDealSome : ∀ oldVal modRev key exp, c.pc = .deleteDeal (some (oldVal, modRev)) → c.kind = .delete key exp →
-      P (if exp > 0 && g.dealt + 1 < exp then
+      P (if exp > 0 && g.dealt + 1 ≤ exp then
            (G.notify { g with dealt := g.dealt + 1 } (mkW (g.dealt + 1) modRev false .delete key oldVal)).finish c (.error .drift) (g.dealt + 1)
          else if exp > 0 && exp != modRev then
            (G.notify { g with dealt := g.dealt + 1 } (mkW (g.dealt + 1) modRev false .delete key oldVal)).setClient
